@@ -368,18 +368,30 @@ def py_val(v):
     raise ValueError(v)
 
 
+# Values and cells longer than two pages cannot come from the model (a row must fit a 4096-byte page);
+# an implementation that returns one (a misread size field) is rendered cut at this length, which still
+# differs from every value of the model, and keeps the Coq term within what coqc can read.
+OBS_CAP = 8192
+
+
+def cq_obs_value(v):
+    if isinstance(v, str) and len(v) > OBS_CAP:
+        v = v[:OBS_CAP]
+    return cq_value(v)
+
+
 def cq_table_obs(t):
     if t["err"] != "ok":
         if t["err"].startswith("panic") or t["err"] == "timeout":
             return "(%s, TPanic)" % cq_str(t["name"])
         return "(%s, TFail %s)" % (cq_str(t["name"]), ERRMAP.get(t["err"], "EOther"))
-    rows = cq_list("(%d, %s)" % (i, cq_list(cq_value(py_val(v)) for v in r)) for i, r in zip(t["ids"], t["rows"]))
+    rows = cq_list("(%d, %s)" % (i, cq_list(cq_obs_value(py_val(v)) for v in r)) for i, r in zip(t["ids"], t["rows"]))
     return "(%s, TRows %s %s)" % (cq_str(t["name"]), cq_list(cq_str(c) for c in t["cols"]), rows)
 
 
 def cq_page(p):
     if p["leaf"]:
-        cells = cq_list("(%d, %s, B [%s])" % (k, cq_bool(d), ";".join(map(str, v)))
+        cells = cq_list("(%d, %s, B [%s])" % (k, cq_bool(d), ";".join(map(str, v[:OBS_CAP])))
                         for k, d, v in zip(p["keys"], p["deleted"], p["vals"]))
         return "PLeaf %d %d %s %s %s %d %d %s" % (p["off"], p["lsn"], cq_bool(p["dirty"]), cq_bool(p["hasL"]),
                                                  cq_bool(p["hasR"]), p["lsib"], p["rsib"], cells)
